@@ -284,6 +284,20 @@ func specialPlans(rng *rand.Rand, cfg Cfg) []HostilePlan {
 	}
 	plans = append(plans, plans0...)
 	if cfg.TLS {
+		// well-formed key management with the key data on a boundary, record and play
+		for _, k := range []int{0, 1, 15, 16, 17, 29, 31, 64} {
+			m := defaultMikey()
+			m.KeyLen = k
+			ku := baseURL(cfg, "/pub") + "/trackID=0"
+			plans = append(plans, HostilePlan{Label: fmt.Sprintf("savp-record-keylen-%d", k), KM: &m, KMURL: ku, Chunks: [][]byte{announce,
+				(&RawReq{Method: "SETUP", URL: ku, Headers: hdr(2, [2]string{"Transport", "RTP/SAVP/TCP;unicast;interleaved=0-1;mode=record"}, [2]string{"KeyMgmt", "{{KM}}"})}).Bytes(),
+				record, frameBytes(0, rtpPacket(96, 1))}, Silent: true, Drain: true})
+			m2 := m
+			pu2 := u + "/trackID=0"
+			plans = append(plans, HostilePlan{Label: fmt.Sprintf("savp-play-keylen-%d", k), KM: &m2, KMURL: pu2, Chunks: [][]byte{
+				(&RawReq{Method: "SETUP", URL: pu2, Headers: hdr(1, [2]string{"Transport", "RTP/SAVP/TCP;unicast;interleaved=0-1"}, [2]string{"KeyMgmt", "{{KM}}"})}).Bytes(),
+				play(2)}, Silent: true, Drain: true})
+		}
 		// secure profile: key management accepted, then frames that do not authenticate, and a wrong SSRC
 		ku := baseURL(cfg, "/pub") + "/trackID=0"
 		sec := (&RawReq{Method: "SETUP", URL: ku, Headers: hdr(2, [2]string{"Transport", "RTP/SAVP/TCP;unicast;interleaved=0-1;mode=record"}, [2]string{"KeyMgmt", validKeyMgmt(ku, rng)})}).Bytes()
@@ -443,6 +457,19 @@ func corpusScenarios() []Scenario {
 		{Name: "scenario-corpus-valid-media-upstream", Cfg: cfg, GoodUDP: false, Peers: pick("valid-media-upstream-play-tcp", "valid-media-upstream-play-udp")},
 		{Name: "scenario-corpus-flood-ws", Cfg: cfg, GoodUDP: true, PubBurst: 12, Peers: pick("flood-ws-play-slow", "flood-ws-play-fast")},
 		{Name: "scenario-corpus-flood-ws-stalled", Cfg: cfg, GoodUDP: false, PubBurst: 12, Peers: pick("flood-ws-play-none", "flood-http-play-slow")},
+		func() Scenario {
+			tcfg := Cfg{Handler: "full", UDP: true, TLS: true}
+			tsp := specialPlans(rand.New(rand.NewPCG(1, 1)), tcfg)
+			sc := Scenario{Name: "scenario-corpus-savp-key-boundaries", Cfg: tcfg}
+			for _, l := range []string{"savp-record-keylen-0", "savp-record-keylen-16", "savp-play-keylen-29", "savp-record-keylen-31"} {
+				for _, p := range tsp {
+					if p.Label == l {
+						sc.Peers = append(sc.Peers, p)
+					}
+				}
+			}
+			return sc
+		}(),
 		{Name: "scenario-corpus-tls-silent", Cfg: Cfg{Handler: "full", TLS: true}, Peers: pick("silent-raw", "silent")},
 	}
 }
